@@ -21,10 +21,10 @@ suite=$(go test -vet=off -count=1 ./... 2>&1)
 if echo "$suite" | grep -q "^FAIL\|^---"; then echo "FAIL: existing suite fails with the change"; echo "$suite" | grep -v "no test files" | head -20; exit 1; fi
 echo "suite with change: pass"
 for f in $(cd $src && git status --porcelain | grep '_test.go$' | awk '{print $2}'); do cp $src/$f $W/$f; done
-with=$(go test $flags -vet=off -count=1 -run 'Seeded' $pkg 2>&1); rc_with=$?
+with=$(go test $flags -vet=off -count=1 -run "${RUNPAT:-Seeded}" $pkg 2>&1); rc_with=$?
 echo "demo with change: rc=$rc_with"
 git apply -R $src/SEEDED/patch.diff
-without=$(go test $flags -vet=off -count=1 -run 'Seeded' $pkg 2>&1); rc_without=$?
+without=$(go test $flags -vet=off -count=1 -run "${RUNPAT:-Seeded}" $pkg 2>&1); rc_without=$?
 echo "demo without change: rc=$rc_without"
 if [ $rc_with -eq 0 ] || [ $rc_without -ne 0 ]; then echo "FAIL: demo does not discriminate"; echo "$with" | tail -5; echo "$without" | tail -5; exit 1; fi
 D=/verif/seeded/$id
